@@ -273,6 +273,7 @@ struct Glue
     static void emplace_back_impl(Vec& v, const MElem& m, std::index_sequence<I...>)
     {
         auto args = std::tuple<decltype(make_arg<I>(m.f[I]))...>{make_arg<I>(m.f[I])...};
+        LibCall lc;  // the arguments are built outside: only the library call itself is watched for operator new
         v.emplace_back(std::move(std::get<I>(args))...);
     }
 
